@@ -368,14 +368,23 @@ def ex_interp_env(c):
 
 
 def ex_winterp(c):
-    x, y = arr(c["x"]), arr(c["y"])
+    # optional history before the request: the Weaver is built on (x0, y0) and the `pre` operations are applied; the
+    # judge gets the exact series after that history as (x, y)
+    x, y = (arr(c["x0"]), arr(c["y0"])) if "x0" in c else (arr(c["x"]), arr(c["y"]))
+    pre = c.get("pre", [])
     kw = {} if c.get("method", "linear") == "linear" and not c.get("explicit_method") else {"method": c.get("method", "linear")}
+    def go(w, f):
+        for op in pre:
+            wcall(w, op)
+        return f(w)
     if c["mode"] == "n":
-        woc, w, unch = wrun(x, y, lambda w: w.interpolate(n=c["n"], **kw))
+        woc, w, unch = wrun(x, y, lambda w: go(w, lambda w: w.interpolate(n=c["n"], **kw)))
     else:
         q = arr(c["q"], c.get("qcontainer", "array"))
-        woc, w, unch = wrun(x, y, lambda w: w.interpolate(new_x=q, **kw))
-    e = dict(c)
+        woc, w, unch = wrun(x, y, lambda w: go(w, lambda w: w.interpolate(new_x=q, **kw)))
+    if pre:
+        unch = True          # the frame flag compares with the state before the history: not meaningful here
+    e = {k: v for k, v in c.items() if k not in ("x0", "y0", "pre")}
     e.update(outcome=woc, w_unchanged=unch)
     e.update(wfields(w, woc, ref=False))
     return e
